@@ -434,6 +434,11 @@ func baseDrivers() []driver {
 			// also a hand-built URL value with arbitrary field contents
 			otp.ParseOTPAuthURL(&url.URL{Scheme: "otpauth", Host: "totp", Path: uhs(a.S[0]), RawQuery: uhs(a.S[0])})
 			otp.ParseOTPAuthURL(&url.URL{Scheme: "otpauth", Host: "hotp", Opaque: uhs(a.S[0])})
+			// the opaque form (no authority at all), the type in front of the text or not; a User part; only a query
+			otp.ParseOTPAuthURL(&url.URL{Scheme: "otpauth", Opaque: uhs(a.S[0]), RawQuery: "secret=ABCD"})
+			otp.ParseOTPAuthURL(&url.URL{Scheme: "otpauth", Opaque: "totp/" + uhs(a.S[0]), RawQuery: uhs(a.S[0])})
+			otp.ParseOTPAuthURL(&url.URL{Scheme: "otpauth", Opaque: "hotp", User: url.User(uhs(a.S[0])), Fragment: uhs(a.S[0])})
+			otp.ParseOTPAuthURL(&url.URL{Scheme: "otpauth", Host: "totp", Path: "/" + uhs(a.S[0]), RawPath: uhs(a.S[0]), OmitHost: true, ForceQuery: true})
 		}},
 		{"GenerateTOTPURL", func(rng *gen.RNG) c10Args {
 			ss := []string{hs(hostileString(rng)), hs(hostileString(rng)), hs(hostileString(rng))}
